@@ -528,6 +528,23 @@ theorem dispatch_ok {env : DEnv} {s : DState} {caller : SessKey} {req : Nat} {ca
   unfold dispatch
   rw [if_neg (by simp [hf])]
 
+theorem dispatchL_full {env : DEnv} {s : DState} (h : CallInv s.d) {caller : SessKey} {req : Nat} {callee : SessKey}
+    {invReq : Nat} (v : Invk) (timeout : Nat) (m : Msg) {v' : Invk} (hf : env.full callee = true)
+    (hfi : s.d.findInv ⟨callee, invReq⟩ = some v') :
+    dispatchL env s caller req callee invReq v timeout m =
+      { st := { (s.cancelTimer v'.timer) with d := s.d.forget v'.callId ⟨callee, invReq⟩ }
+        sends := [callErr v'.callId [] ErrNetworkFailure [.str "<text>"] []] } := by
+  unfold dispatchL
+  rw [if_pos hf]
+  exact syncError_some' h _ _ _ _ hfi
+
+theorem dispatchL_ok {env : DEnv} {s : DState} {caller : SessKey} {req : Nat} {callee : SessKey}
+    (invReq : Nat) (v : Invk) (timeout : Nat) (m : Msg) (hf : env.full callee = false) :
+    dispatchL env s caller req callee invReq v timeout m =
+      { st := armTimer env (preCancel s v timeout) caller req v timeout, sends := [⟨callee, m⟩] } := by
+  unfold dispatchL
+  rw [if_neg (by simp [hf])]
+
 theorem findInv_setInv {d : Dealer} (hids : (d.invs.map (·.id)).Nodup) {v0 v : Invk} (hm : v0 ∈ d.invs)
     (hid : v.id = v0.id) : (d.setInv v).findInv v.id = some v := by
   have hn : ((d.setInv v).invs.map (·.id)).Nodup := by
@@ -629,12 +646,13 @@ theorem firstChunk_full {env : DEnv} {s : DState} (h : DealerInv s) {reg : Reg} 
 theorem laterChunk_ok {env : DEnv} {s : DState} (caller : SessKey) (req : Nat) (opts : Dict)
     (args : List WVal) (kw : Dict) (iid : ReqId) {v0 : Invk} (hf : env.full v0.callee = false) :
     laterChunk env s caller req opts args kw iid v0 =
-      { st := armTimer env { s with d := s.d.setInv { v0 with inProgress := opts.optFlag OptProgress } } caller req
+      { st := armTimer env (preCancel { s with d := s.d.setInv { v0 with inProgress := opts.optFlag OptProgress } }
+                  { v0 with inProgress := opts.optFlag OptProgress } (routerTimeoutF env v0.fwdTimeout v0.callee v0.options)) caller req
                 { v0 with inProgress := opts.optFlag OptProgress } (routerTimeoutF env v0.fwdTimeout v0.callee v0.options)
         sends := [⟨v0.callee, .invocation iid.req v0.regId [(OptProgress, .bool (opts.optFlag OptProgress))] args kw⟩] } := by
   unfold laterChunk
   simp only
-  rw [dispatch_ok _ _ _ _ hf]
+  rw [dispatchL_ok _ _ _ _ hf]
 
 theorem laterChunk_full_eq {env : DEnv} {s : DState} (h : DealerInv s) {caller : SessKey} {req : Nat}
     (opts : Dict) (args : List WVal) (kw : Dict) {iid : ReqId} {v0 : Invk}
@@ -652,7 +670,7 @@ theorem laterChunk_full_eq {env : DEnv} {s : DState} (h : DealerInv s) {caller :
     rw [hid]; exact this
   unfold laterChunk
   simp only
-  rw [dispatch_full h1.call _ _ _ hf hfi']
+  rw [dispatchL_full h1.call _ _ _ hf hfi']
   have hid : (⟨v0.callee, iid.req⟩ : ReqId) = iid := by rw [hve]
   unfold fullOut
   simp only
@@ -676,7 +694,8 @@ theorem syncCall_cases {env : DEnv} {s : DState} (h : DealerInv s) (caller : Ses
       P (progressAbort s caller))
     (hLaterOk : ∀ (iid : ReqId) (v0 : Invk), s.d.byCall? ⟨caller, req⟩ = some iid → s.d.findInv iid = some v0 →
       v0 ∈ s.d.invs → v0.id = iid → v0.callId = ⟨caller, req⟩ → v0.callee = iid.sess → env.full v0.callee = false →
-      P { st := armTimer env { s with d := s.d.setInv { v0 with inProgress := opts.optFlag OptProgress } } caller req
+      P { st := armTimer env (preCancel { s with d := s.d.setInv { v0 with inProgress := opts.optFlag OptProgress } }
+                    { v0 with inProgress := opts.optFlag OptProgress } (routerTimeoutF env v0.fwdTimeout v0.callee v0.options)) caller req
                   { v0 with inProgress := opts.optFlag OptProgress } (routerTimeoutF env v0.fwdTimeout v0.callee v0.options)
           sends := [⟨v0.callee, .invocation iid.req v0.regId [(OptProgress, .bool (opts.optFlag OptProgress))] args kw⟩] })
     (hLaterFull : ∀ (iid : ReqId) (v0 : Invk), s.d.byCall? ⟨caller, req⟩ = some iid → s.d.findInv iid = some v0 →
@@ -1215,7 +1234,7 @@ theorem syncCall_calls_sub {env : DEnv} {s : DState} (h : DealerInv s) (caller :
     opts proc args kw rnd ?_ ?_ ?_ ?_ ?_ ?_ ?_ ?_
   · intro _ hc; exact Or.inl hc
   · intro iid v0 _ _ _ _ _ _ _ hc
-    simp only [armTimer_calls] at hc; exact Or.inl hc
+    simp only [armTimer_calls, preCancel_d] at hc; exact Or.inl hc
   · intro iid v0 _ _ _ _ _ _ _ hc
     exact Or.inl (List.mem_filter.1 hc).1
   · intro _ _ _ hc; exact Or.inl hc
